@@ -358,6 +358,8 @@ impl Ctx {
         let t0 = Instant::now();
         let mut buf: Vec<u8> = vec![];
         let mut timed_out = false;
+        let mut slow = false;
+        let mut progress_note = String::new();
         unsafe {
             let flags = libc::fcntl(fds[0], libc::F_GETFL);
             libc::fcntl(fds[0], libc::F_SETFL, flags | libc::O_NONBLOCK);
@@ -373,8 +375,28 @@ impl Ctx {
                 break; // EOF: child closed the pipe (exited)
             }
             if t0.elapsed() > limit {
-                timed_out = true;
-                break;
+                // wall-clock alone cannot tell a hang from a starved machine: a case counts as
+                // hanging only when it also burnt far more CPU (spin) or went to sleep far more
+                // often (polling loop) than any terminating case does; otherwise keep waiting up
+                // to 8 x limit and then give up on it as "slow" (discarded, not a violation)
+                let stat = std::fs::read_to_string(format!("/proc/{pid}/stat")).unwrap_or_default();
+                let f: Vec<&str> = stat.rsplit(')').next().unwrap_or("").split_whitespace().collect();
+                let ticks = |i: usize| f.get(i).and_then(|v| v.parse::<u64>().ok()).unwrap_or(0);
+                // fields after the command: state(0) ... utime(11) stime(12) cutime(13) cstime(14)
+                let cpu_s = (ticks(11) + ticks(12) + ticks(13) + ticks(14)) / 100;
+                let status = std::fs::read_to_string(format!("/proc/{pid}/status")).unwrap_or_default();
+                let vol = status.lines().find_map(|l| l.strip_prefix("voluntary_ctxt_switches:")).and_then(|v| v.trim().parse::<u64>().ok()).unwrap_or(0);
+                if cpu_s > 40 || vol > 100_000 {
+                    timed_out = true;
+                    progress_note = format!("cpu {cpu_s} s, {vol} voluntary context switches");
+                    break;
+                }
+                if t0.elapsed() > limit * 8 {
+                    timed_out = true;
+                    slow = true;
+                    progress_note = format!("cpu {cpu_s} s, {vol} voluntary context switches");
+                    break;
+                }
             }
             std::thread::sleep(Duration::from_millis(2));
         }
@@ -402,8 +424,11 @@ impl Ctx {
         let mut status = 0;
         unsafe { libc::waitpid(pid, &mut status, 0) };
         let mut obs = Obs::default();
+        if timed_out && slow {
+            return (obs, Err(Failure::new("harness.slow", format!("the case did not finish within {} s but shows no sign of a hang ({progress_note}); {where_stuck}", limit.as_secs() * 8))));
+        }
         if timed_out {
-            return (obs, Err(Failure::new(hang_signature, format!("the case did not finish within {} s (normal duration is far below a second); {where_stuck}", limit.as_secs()))));
+            return (obs, Err(Failure::new(hang_signature, format!("the case did not finish within {} s and is busy beyond anything a terminating case does ({progress_note}); {where_stuck}", limit.as_secs()))));
         }
         match serde_json::from_slice::<Value>(&buf) {
             Ok(j) => {
